@@ -73,7 +73,7 @@ func init() {
 		},
 		Assumptions: append([]string{
 			"bytes.IndexByte is an engine model (first index whose byte equals the needle, forking per byte); expvar is a counter table; time.AfterFunc/Timer.Stop are no-ops",
-			"the io.Reader is a harness stub returning any chunk allowed by the io.Reader contract; read errors other than io.EOF are outside the claim",
+			"the io.Reader is a harness stub returning any chunk allowed by the io.Reader contract (io.EOF on its own or together with the last bytes); read errors other than io.EOF are outside the claim",
 		}, baseAssumptions...),
 		Outside: []string{"streams longer than the bound", "read errors", "the stale-timer cancellation"},
 	})
